@@ -11,6 +11,9 @@
 (*   tags      set of [name, at, ver]  (ver: the name parsed once)         *)
 (*   wt        working tree: the same three texts;  dirty: uncommitted     *)
 (*   day       the date (never decreases)                                  *)
+(*   otherDirty a tracked file that carries no version pattern has unstaged   *)
+(*             modifications (only --allow-dirty lets a committing update   *)
+(*             proceed; the modification must stay out of the bump commit)  *)
 (*   cscope    the project's configured tag scope (fixed for a history:    *)
 (*             `show` and `update` then resolve the version the same way)  *)
 (*   pend      the invocation being chosen (parameters are picked in a     *)
@@ -26,8 +29,8 @@
 (***************************************************************************)
 EXTENDS BVDerived, TLC, Json, Gen_Hist
 
-VARIABLES br, heads, commits, tags, wt, dirty, day, pend, last, hist, cscope
-vars == <<br, heads, commits, tags, wt, dirty, day, pend, last, hist, cscope>>
+VARIABLES br, heads, commits, tags, wt, dirty, day, pend, last, hist, cscope, otherDirty
+vars == <<br, heads, commits, tags, wt, dirty, day, pend, last, hist, cscope, otherDirty>>
 Branches == {"main", "feat"}
 Scopes == {"default", "global", "branch"}
 DP == Pep440Pattern(GenP)
@@ -36,7 +39,7 @@ Files(text) == [cfg |-> text, ver |-> text, pep |-> PepOf(text)]
 NoPend == [none |-> TRUE]
 Init == /\ br = "main" /\ commits = << [parent |-> 0, files |-> Files(GenV0)] >> /\ heads = [main |-> 1, feat |-> 0]
         /\ tags = {} /\ wt = Files(GenV0) /\ dirty = FALSE /\ day = GenDay0 /\ pend = NoPend /\ last = [act |-> "init"] /\ hist = <<>>
-        /\ cscope \in Scopes
+        /\ cscope \in Scopes /\ otherDirty = FALSE
 
 RECURSIVE Ancestors(_)
 Ancestors(c) == IF c = 0 THEN {} ELSE {c} \cup Ancestors(commits[c].parent)
@@ -52,10 +55,10 @@ Resolve(scope) == LET ts == TagsInScope(scope) cv == TagVer(wt.cfg) IN
 Log(rec) == hist' = Append(hist, rec)
 \* parameters of the next invocation (tag/push need commit; without a tag only scope default is meaningful, see DESIGN C08)
 Choose == /\ pend = NoPend /\ Len(hist) < GenDepth
-          /\ \E f \in GenFlagSets, c \in BOOLEAN, t \in BOOLEAN, dd \in GenDayStep :
-               /\ (t => c) /\ (~t => cscope = "default")
-               /\ pend' = [f |-> f, scope |-> cscope, commit |-> c, tagit |-> t, day |-> day + dd]
-          /\ UNCHANGED <<br, heads, commits, tags, wt, dirty, day, last, hist, cscope>>
+          /\ \E f \in GenFlagSets, c \in BOOLEAN, t \in BOOLEAN, dd \in GenDayStep, al \in BOOLEAN :
+               /\ (t => c) /\ (~t => cscope = "default") /\ (al => otherDirty /\ c)
+               /\ pend' = [f |-> f, scope |-> cscope, commit |-> c, tagit |-> t, day |-> day + dd, allow |-> al]
+          /\ UNCHANGED <<br, heads, commits, tags, wt, dirty, day, last, hist, cscope, otherDirty>>
 Update ==
   /\ pend # NoPend
   /\ LET f == pend.f scope == pend.scope commit == pend.commit tagit == pend.tagit
@@ -63,7 +66,7 @@ Update ==
          out == Incr(start, GenP, f, pend.day, GenToday, Dev)
          ok1 == out # None /\ out # Raises /\ VerCmp(start, out) = -1
          ok2 == ok1 /\ (scope = "branch" => out \notin {t.name : t \in tags})
-         blocked == commit /\ dirty                      \* dirty check: config and files are pattern files
+         blocked == commit /\ (dirty \/ (otherDirty /\ ~pend.allow))      \* dirty check: config and files are pattern files; other files block unless --allow-dirty
          same == ok2 /\ Files(out) = wt                   \* nothing to rewrite: git refuses the empty commit
          ok == ok2 /\ ~blocked /\ ~(commit /\ same)
      IN /\ IF ok2 /\ ~blocked
@@ -76,21 +79,23 @@ Update ==
                    ELSE /\ dirty' = (IF commit THEN dirty ELSE TRUE) /\ UNCHANGED <<commits, heads, tags>>
            ELSE UNCHANGED <<wt, commits, heads, tags, dirty>>
         /\ last' = [act |-> "update", ok |-> ok, start |-> start, new |-> IF ok2 THEN out ELSE None, tagit |-> tagit, commit |-> commit, scope |-> scope, prev |-> wt.cfg]
-        /\ Log([act |-> "update", f |-> f, scope |-> scope, commit |-> commit, tagit |-> tagit, day |-> pend.day, ok |-> ok, start |-> start,
+        /\ Log([act |-> "update", f |-> f, scope |-> scope, commit |-> commit, tagit |-> tagit, day |-> pend.day, allow |-> pend.allow, other_dirty |-> otherDirty, ok |-> ok, start |-> start,
                 new |-> IF ok1 THEN out ELSE None, wt |-> IF ok2 /\ ~blocked THEN Files(out) ELSE wt,
                 ntags |-> Cardinality(IF ok /\ tagit THEN tags \cup {[name |-> out]} ELSE {[name |-> t.name] : t \in tags})])
-  /\ day' = pend.day /\ pend' = NoPend /\ UNCHANGED <<br, cscope>>
-UserCommit == /\ pend = NoPend /\ dirty /\ Len(hist) < GenDepth
+  /\ day' = pend.day /\ pend' = NoPend /\ UNCHANGED <<br, cscope, otherDirty>>
+TouchOther == /\ pend = NoPend /\ ~otherDirty /\ Len(hist) < GenDepth /\ otherDirty' = TRUE
+              /\ last' = [act |-> "touchother"] /\ Log([act |-> "touchother"]) /\ UNCHANGED <<br, heads, commits, tags, wt, dirty, day, pend, cscope>>
+UserCommit == /\ pend = NoPend /\ (dirty \/ otherDirty) /\ Len(hist) < GenDepth /\ otherDirty' = FALSE
               /\ commits' = Append(commits, [parent |-> heads[br], files |-> wt]) /\ heads' = [heads EXCEPT ![br] = Len(commits) + 1]
               /\ dirty' = FALSE /\ last' = [act |-> "usercommit"] /\ Log([act |-> "usercommit"]) /\ UNCHANGED <<br, tags, wt, day, pend, cscope>>
-Unrelated == /\ pend = NoPend /\ ~dirty /\ Len(hist) < GenDepth
+Unrelated == /\ pend = NoPend /\ ~dirty /\ ~otherDirty /\ Len(hist) < GenDepth
              /\ commits' = Append(commits, [parent |-> heads[br], files |-> wt]) /\ heads' = [heads EXCEPT ![br] = Len(commits) + 1]
-             /\ last' = [act |-> "unrelated"] /\ Log([act |-> "unrelated"]) /\ UNCHANGED <<br, tags, wt, dirty, day, pend, cscope>>
-NewBranch == /\ pend = NoPend /\ ~dirty /\ heads.feat = 0 /\ Len(hist) < GenDepth /\ heads' = [heads EXCEPT !.feat = heads[br]] /\ br' = "feat"
-             /\ last' = [act |-> "newbranch"] /\ Log([act |-> "newbranch"]) /\ UNCHANGED <<commits, tags, wt, dirty, day, pend, cscope>>
-Switch(b) == /\ pend = NoPend /\ ~dirty /\ b # br /\ heads[b] # 0 /\ Len(hist) < GenDepth /\ br' = b /\ wt' = commits[heads[b]].files
-             /\ last' = [act |-> "switch"] /\ Log([act |-> "switch", to |-> b, wt |-> commits[heads[b]].files]) /\ UNCHANGED <<heads, commits, tags, dirty, day, pend, cscope>>
-Next == Choose \/ Update \/ UserCommit \/ Unrelated \/ NewBranch \/ \E b \in Branches : Switch(b)
+             /\ last' = [act |-> "unrelated"] /\ Log([act |-> "unrelated"]) /\ UNCHANGED <<br, tags, wt, dirty, day, pend, cscope, otherDirty>>
+NewBranch == /\ pend = NoPend /\ ~dirty /\ ~otherDirty /\ heads.feat = 0 /\ Len(hist) < GenDepth /\ heads' = [heads EXCEPT !.feat = heads[br]] /\ br' = "feat"
+             /\ last' = [act |-> "newbranch"] /\ Log([act |-> "newbranch"]) /\ UNCHANGED <<commits, tags, wt, dirty, day, pend, cscope, otherDirty>>
+Switch(b) == /\ pend = NoPend /\ ~dirty /\ ~otherDirty /\ b # br /\ heads[b] # 0 /\ Len(hist) < GenDepth /\ br' = b /\ wt' = commits[heads[b]].files
+             /\ last' = [act |-> "switch"] /\ Log([act |-> "switch", to |-> b, wt |-> commits[heads[b]].files]) /\ UNCHANGED <<heads, commits, tags, dirty, day, pend, cscope, otherDirty>>
+Next == Choose \/ Update \/ TouchOther \/ UserCommit \/ Unrelated \/ NewBranch \/ \E b \in Branches : Switch(b)
 Spec == Init /\ [][Next]_vars
 
 \* ---------- C08 ----------
@@ -112,5 +117,5 @@ OneCommitOneTag == Succeeded /\ last.commit =>
    /\ Cardinality({t \in tags : t.at = heads[br]}) = (IF last.tagit THEN 1 ELSE 0)
 \* export of behaviours for replay (simulation mode): one JSON line per finished history
 Export == (Len(hist) < GenDepth \/ pend # NoPend) \/ PrintT("HIST " \o ToJson(hist))
-View == <<br, heads, commits, tags, wt, dirty, day, pend, last, cscope>>
+View == <<br, heads, commits, tags, wt, dirty, day, pend, last, cscope, otherDirty>>
 =============================================================================
